@@ -72,13 +72,13 @@ pub fn sanitize(s: &str) -> String {
 
 thread_local! {
 	static LAST_PANIC: RefCell<Option<String>> = RefCell::new(None);
-	static QUIET: RefCell<bool> = RefCell::new(false);
+	static QUIET: RefCell<u32> = RefCell::new(0);
 }
 
 pub fn install_panic_hook() {
 	let default = panic::take_hook();
 	panic::set_hook(Box::new(move |info| {
-		let quiet = QUIET.with(|q| *q.borrow());
+		let quiet = QUIET.with(|q| *q.borrow()) > 0;
 		let loc = info
 			.location()
 			.map(|l| {
@@ -122,10 +122,10 @@ impl Panicked {
 
 /// Run `f`, converting a panic into Err. Panics inside are not printed.
 pub fn catch<T>(f: impl FnOnce() -> T) -> Result<T, Panicked> {
-	QUIET.with(|q| *q.borrow_mut() = true);
+	QUIET.with(|q| *q.borrow_mut() += 1);
 	LAST_PANIC.with(|p| *p.borrow_mut() = None);
 	let r = panic::catch_unwind(AssertUnwindSafe(f));
-	QUIET.with(|q| *q.borrow_mut() = false);
+	QUIET.with(|q| *q.borrow_mut() -= 1);
 	r.map_err(|_| Panicked {
 		msg: LAST_PANIC.with(|p| p.borrow_mut().take()).unwrap_or_else(|| "<unknown panic>".into()),
 	})
